@@ -818,6 +818,19 @@ def setup(argv):
 
 def replay(path):
     d = json.load(open(path))
+    if d.get('config') and d.get('cmd'):
+        # a feature-configuration build (C17): build again and read the linked crates
+        for b in crate_config_builds():
+            if b['config'] == d['config']:
+                log('%s: %s (links %s)' % (b['config'], 'ok' if b['ok'] else b['why'], ', '.join(b['links'])))
+                if not b['ok']:
+                    log('VIOLATION property=%s replay=%s' % (d.get('property', 'C17'), path))
+                    return 1
+        return 0
+    if d.get('property') == 'C15' or (d.get('other_scenario') and d.get('property') == 'C04'):
+        # witness crates / pairs of runs are not single scenarios: re-run the check that produced them
+        log('%s is not a single scenario; re-running the quick check of %s' % (path, d['property']))
+        return CHECKS[d['property']]('quick', time.time())
     if not d.get('scenario'):
         log('no scenario recorded in ' + path)
         return 2
